@@ -678,6 +678,8 @@ def parseOps : List String → List ApiOp
   | "bump" :: i :: n :: rest => .bump i.toNat! n.toNat! :: parseOps rest
   | "clone" :: i :: rest => .clone i.toNat! :: parseOps rest
   | "morph" :: i :: rest => .morph i.toNat! :: parseOps rest
+  | "fresh" :: p :: rest => .fresh (p == "1") :: parseOps rest
+  | "clonefrom" :: i :: j :: rest => .cloneFrom i.toNat! j.toNat! :: parseOps rest
   | _ :: rest => parseOps rest
   | [] => []
 
@@ -697,7 +699,7 @@ def apiAnswer (ca cb : Case) (src : List Nat) (isPrefix : Bool) (ops : List ApiO
     | [] => acc.reverse
     | op :: rest =>
       let r := apiStep env pool op
-      let st := r.1.getD r.2.1 ⟨0, 0, 0, 0⟩
+      let st := r.1.getD r.2.1 ⟨0, 0, 0, 0, false⟩
       let cse := if st.ty == 0 then ca else cb
       let pre := match r.2.2 with
         | .item x =>
@@ -710,9 +712,11 @@ def apiAnswer (ca cb : Case) (src : List Nat) (isPrefix : Bool) (ops : List ApiO
         | .bumped ok => if ok then "ok" else "panic"
         | .cloned => "clone"
         | .morphed => "morph"
+        | .made => "fresh"
+        | .clonedFrom => "clonefrom"
         | .noLexer => "nolexer"
       go r.1 rest (s!"{pre}={lexStStr st}" :: acc)
-  " ".intercalate (go [⟨0, 0, 0, 7⟩] ops [])
+  " ".intercalate (go [⟨0, 0, 0, 7, isPrefix⟩] ops [])
 
 /-! ## The text pipeline (`Subst.lean`): the predicted calls of `Pattern::compile` -/
 
